@@ -112,6 +112,14 @@ def run(chk, gate, status):
         rng = random.Random(chk.seed * 100003 + 150000 + i)
         rg = recipes.RecipeGen(rng, rng.randint(3, hi), allow_d13=False)
         cases.append((rg, make_queries(rng, rg, chk.tier)))
+    for p in recipes.twin_lot_recipes():
+        rp = recipes.Replayed(p)
+        qs = []
+        for n in (2, 3, 4, 5):
+            for u in ('ug', 'mg', 'U', 'uL'):
+                qs += [{'q': 'flows', 'n': n, 'stage': 'all', 'unit': u}, {'q': 'remaining', 'n': n, 'stage': 'all', 'unit': u, 'mode': 'before'},
+                       {'q': 'remaining', 'n': n, 'stage': 'all', 'unit': u, 'mode': 'after'}]
+        cases.insert(0, (rp, qs))
     chk.assumptions += ["no dilute step with new_name (known finding D31)", "fill_to steps address containers or whole plates (D13 is reported under C08/C07)"]
     cov = recipes.check(chk, 'C15', cases, oracle, RULE, nontrivial)
     cov['queries_under_configuration_variants'] = recipes.variants(chk, cases, oracle, 'C15v', limit=8 if chk.tier == 'quick' else 60)
